@@ -13,6 +13,8 @@ pub fn expressions(tier: Tier) -> Vec<String> {
         "a || b", "a[?b > `1`]", "*", "[a, b]", "{x: a}", "\"é\"", "sum(a)", "abs('x')", "nosuch(@)", "length(@, @)", "a[::0]", "a[",
         "", "a b", "`{`", "\"unterminated", "a.\n b", "'\n'", "type(@)", "@ == @", "`null`", "`\"\"`", "b", "'<\\'>'", "`\"\\u0000\\u2028\"`",
         "'x\r\ny'", "join('\r\n', keys(@))", "'\r'", "a\r\n.\r\nb",
+        // Unicode white space that is not JMESPath white space, trailing and leading (an expression file is taken as it is)
+        "@\u{a0}", "a\u{2028}", "a\u{b}", "a \u{3000}", "a\u{85}\n", "\u{a0}a", "a\u{c}", "'x\n'", "join('', ['l1\n', 'l2\n'])",
     ]
     .iter()
     .map(|s| s.to_string())
@@ -35,6 +37,19 @@ pub fn long_expressions() -> Vec<String> {
             v.push(format!("{}length('{}')", " ".repeat(pad), "é".repeat(n)));
         }
     }
+    v
+}
+
+/// documents larger than any plausible read block, filled with multi-byte characters at every alignment: a
+/// reader that decodes block by block splits a character at each block boundary
+pub fn large_inputs() -> Vec<Vec<u8>> {
+    let mut v = Vec::new();
+    for (fill, n) in [("\u{e9}", 100_000usize), ("\u{20ac}", 70_000), ("\u{1F600}", 50_000)] {
+        for pad in 0..4 {
+            v.push(format!("{}\"{}\"", " ".repeat(pad), fill.repeat(n)).into_bytes());
+        }
+    }
+    v.push(format!("[{}]", vec!["\"\u{e9}\u{20ac}\u{1F600}\""; 30_000].join(",")).into_bytes());
     v
 }
 
@@ -139,9 +154,18 @@ pub struct RunOut {
     pub code: Option<i32>,
     pub stdout: Vec<u8>,
     pub stderr: Vec<u8>,
+    /// still running at the horizon and killed by the harness
+    pub timed_out: bool,
 }
 
+/// no jp run of the enumerated cases takes more than a fraction of a second; one that is still running after this
+/// many seconds is waiting for input that will never come (or looping)
+pub const JP_HORIZON_SECS: u64 = 10;
+/// hangs seen so far in this run: after a few, the remaining cases get a shorter horizon (the verdict is in already)
+static HANGS: std::sync::atomic::AtomicUsize = std::sync::atomic::AtomicUsize::new(0);
+
 pub fn run_jp(jp: &str, c: &Case, dir: &std::path::Path, id: usize) -> RunOut {
+    use std::os::unix::fs::OpenOptionsExt;
     let reads_input = !c.ast && c.es != ExprSrc::MissingFile && jmespath::compile(&c.expr).is_ok();
     let ef = dir.join(format!("e{}", id));
     let inf = dir.join(format!("i{}", id));
@@ -190,6 +214,28 @@ pub fn run_jp(jp: &str, c: &Case, dir: &std::path::Path, id: usize) -> RunOut {
     }
     cmd.stdin(Stdio::piped()).stdout(Stdio::piped()).stderr(Stdio::piped());
     let mut child = cmd.spawn().expect("spawn jp");
+    // a jp that waits for input nobody provides (or spins) must not hang the check: kill it after the horizon
+    let pid = child.id() as i32;
+    let done = std::sync::Arc::new(std::sync::atomic::AtomicBool::new(false));
+    let killed = std::sync::Arc::new(std::sync::atomic::AtomicBool::new(false));
+    {
+        let (done, killed) = (done.clone(), killed.clone());
+        std::thread::spawn(move || {
+            let t0 = std::time::Instant::now();
+            let horizon = if HANGS.load(std::sync::atomic::Ordering::SeqCst) >= 4 { 2 } else { JP_HORIZON_SECS };
+            while t0.elapsed() < std::time::Duration::from_secs(horizon) {
+                std::thread::sleep(std::time::Duration::from_millis(20));
+                if done.load(std::sync::atomic::Ordering::SeqCst) {
+                    return;
+                }
+            }
+            killed.store(true, std::sync::atomic::Ordering::SeqCst);
+            HANGS.fetch_add(1, std::sync::atomic::Ordering::SeqCst);
+            unsafe {
+                libc::kill(pid, libc::SIGKILL);
+            }
+        });
+    }
     let fifo_writer = if c.is == InSrc::Fifo && reads_input {
         // feed the FIFO from another thread; open non-blocking first so that a jp which never opens it cannot hang us
         let path = inf.clone();
@@ -199,6 +245,16 @@ pub fn run_jp(jp: &str, c: &Case, dir: &std::path::Path, id: usize) -> RunOut {
             for _ in 0..400 {
                 match std::fs::OpenOptions::new().write(true).custom_flags(libc::O_NONBLOCK).open(&path) {
                     Ok(mut f) => {
+                        // the reader is there: back to blocking writes (a document larger than the pipe buffer
+                        // would otherwise be cut short with EAGAIN); a reader that exits early gives EPIPE
+                        {
+                            use std::os::unix::io::AsRawFd;
+                            let fd = f.as_raw_fd();
+                            unsafe {
+                                let fl = libc::fcntl(fd, libc::F_GETFL);
+                                libc::fcntl(fd, libc::F_SETFL, fl & !libc::O_NONBLOCK);
+                            }
+                        }
                         let _ = f.write_all(&data);
                         return;
                     }
@@ -216,17 +272,26 @@ pub fn run_jp(jp: &str, c: &Case, dir: &std::path::Path, id: usize) -> RunOut {
         }
     }
     let o = child.wait_with_output().expect("wait jp");
+    done.store(true, std::sync::atomic::Ordering::SeqCst);
+    let timed_out = killed.load(std::sync::atomic::Ordering::SeqCst);
+    if timed_out && c.is == InSrc::Fifo {
+        // release a writer thread still waiting for a reader
+        let _ = std::fs::OpenOptions::new().read(true).custom_flags(libc::O_NONBLOCK).open(&inf);
+    }
     if let Some(h) = fifo_writer {
         let _ = h.join();
     }
     std::fs::remove_file(&ef).ok();
     std::fs::remove_file(&inf).ok();
-    RunOut { code: o.status.code(), stdout: o.stdout, stderr: o.stderr }
+    RunOut { code: o.status.code(), stdout: o.stdout, stderr: o.stderr, timed_out }
 }
 
 pub fn judge(c: &Case, exp: &Expect, o: &RunOut) -> Option<(String, String, String)> {
     let err = String::from_utf8_lossy(&o.stderr).to_string();
     let show = |o: &RunOut| format!("exit {:?} stdout {:?} stderr {:?}", o.code, String::from_utf8_lossy(&o.stdout), crate::engine::trunc(&err, 200));
+    if o.timed_out {
+        return Some(("C18/hang".into(), format!("terminates (expected: {:?})", match exp { Expect::Success(_) => "success", Expect::Failure(w) => w, Expect::Skip => "skip" }), "still running at the horizon (killed by the harness)".to_string()));
+    }
     if o.code == Some(101) || o.code.is_none() || err.contains("panicked") {
         return Some(("C18/panic".into(), "never panics".into(), show(o)));
     }
@@ -299,6 +364,14 @@ pub fn run(tier: Tier) -> i32 {
             }
         }
     }
+    // large inputs through every input source
+    for i in large_inputs() {
+        for e in ["length(@)", "@"] {
+            for is in [InSrc::Stdin, InSrc::File, InSrc::DevStdin, InSrc::Fifo] {
+                cases.push(Case { expr: e.to_string(), input: i.clone(), es: ExprSrc::Arg, is, unquoted: e == "@", ast: false });
+            }
+        }
+    }
     let results: Vec<(usize, Expect, Option<(String, String, String)>)> = cases
         .par_iter()
         .enumerate()
@@ -331,7 +404,7 @@ pub fn run(tier: Tier) -> i32 {
         }
         if let Some((key, want, got)) = j {
             st.violate(Violation { key, check: "cli".into(), case: case_json(&cases[id]), expected: want, actual: got });
-        } else if id % 3001 == 17 {
+        } else if id % 3001 == 17 && cases[id].input.len() < 4096 {
             st.sample(|| case_json(&cases[id]));
         }
     }
